@@ -542,16 +542,88 @@ class Translator:
         except IndexError:
             fail(tm.rel, fd, 'TimeDomainExpression.FT: no `result = self.change(result, domain=...)` statement')
         tail = body[i + 1:]
-        T0 = ['result = result(var)', 'result = result.expand(diracdelta=True, wrt=var)', 'result = result.simplify()', 'return result']
-        T1 = ['units = result.units'] + T0[:3] + ['result.units = units', 'return result']
         if body[i] != "result = self.change(result, domain='fourier', units_scale=uu.s, **assumptions)":
             fail(tm.rel, fd, 'TimeDomainExpression.FT: unrecognised change() call')
-        if tail == T0:
-            self.ft_keeps_units = False
-        elif tail == T1:
-            self.ft_keeps_units = True
-        else:
-            fail(tm.rel, fd, 'TimeDomainExpression.FT: unrecognised statements after change()')
+        if not tail or tail[-1] != 'return result':
+            fail(tm.rel, fd, 'TimeDomainExpression.FT: does not end with `return result`')
+        # the statements in between may rebuild `result` (result(var), expand, simplify, ...) but must not touch .units,
+        # except for the save/restore pair  units = result.units ... result.units = units  around them
+        saves = tail[0] == 'units = result.units'
+        restores = len(tail) >= 2 and tail[-2] == 'result.units = units'
+        if saves != restores:
+            fail(tm.rel, fd, 'TimeDomainExpression.FT: units are saved but not restored (or the reverse)')
+        middle = fd.body[i + 1 + (1 if saves else 0):len(fd.body) - 1 - (1 if restores else 0)]
+        if 'result = result(var)' not in [ast.unparse(m) for m in middle]:
+            fail(tm.rel, fd, 'TimeDomainExpression.FT: no `result = result(var)` after change()')
+        for m in middle:
+            for n in ast.walk(m):
+                if (isinstance(n, ast.Attribute) and n.attr in ('units', '_units')) or (isinstance(n, ast.Name) and n.id == 'units'):
+                    fail(tm.rel, m, 'TimeDomainExpression.FT: the units are touched between change() and return')
+        self.ft_keeps_units = saves
+        # (e) ExprDomain.as_quantity: which as_<x>() each quantity name is dispatched to, and which class each as_<x>() builds
+        em2 = self.mod('exprdomain')
+        if 'ExprDomain' not in em2.classes:
+            raise Untranslatable('lcapy/exprdomain.py: class ExprDomain not found')
+        edc = em2.classes['ExprDomain']
+        self.as_method = {}       # method name -> quantity it constructs, or 'self'
+        for n in edc.body:
+            if isinstance(n, ast.FunctionDef) and n.name.startswith('as_') and n.name not in (
+                    'as_quantity', 'as_domain', 'as_constant', 'as_superposition'):
+                b = [ast.unparse(x) for x in nodoc(n.body)]
+                if b == ['return self']:
+                    self.as_method[n.name] = 'self'
+                    continue
+                mm = None
+                if len(b) == 1 and b[0].startswith("return self._class_by_quantity('") and b[0].endswith("')(self)"):
+                    mm = b[0][len("return self._class_by_quantity('"):-len("')(self)")]
+                if mm is None or mm not in QUANTITIES:
+                    fail(em2.rel, n, 'ExprDomain.%s: unrecognised body' % n.name)
+                self.as_method[n.name] = mm
+        aq = method(edc, 'as_quantity', em2.rel)
+        if [a.arg for a in aq.args.args] != ['self', 'quantity']:
+            fail(em2.rel, aq, 'ExprDomain.as_quantity: unexpected signature')
+        ab = nodoc(aq.body)
+        if len(ab) != 2 or not isinstance(ab[0], ast.If) or not isinstance(ab[1], ast.Raise):
+            fail(em2.rel, aq, 'ExprDomain.as_quantity: expected an if/elif chain followed by raise')
+        self.asq = {}             # quantity name -> quantity constructed | 'self'
+        node = ab[0]
+        while True:
+            t = node.test
+            if not (isinstance(t, ast.Compare) and isinstance(t.left, ast.Name) and t.left.id == 'quantity' and len(t.ops) == 1
+                    and isinstance(t.ops[0], ast.Eq) and isinstance(t.comparators[0], ast.Constant)
+                    and t.comparators[0].value in QUANTITIES):
+                fail(em2.rel, node, 'ExprDomain.as_quantity: unrecognised test')
+            qn = t.comparators[0].value
+            bsrc = [ast.unparse(x) for x in node.body]
+            if len(bsrc) != 1 or not (bsrc[0].startswith('return self.as_') and bsrc[0].endswith('()')):
+                fail(em2.rel, node, 'ExprDomain.as_quantity: unrecognised branch body')
+            mname = bsrc[0][len('return self.'):-2]
+            if mname not in self.as_method:
+                fail(em2.rel, node, 'ExprDomain.as_quantity: dispatch to unknown method %s' % mname)
+            if qn in self.asq:
+                pass          # an earlier branch wins
+            else:
+                self.asq[qn] = self.as_method[mname]
+            if len(node.orelse) == 1 and isinstance(node.orelse[0], ast.If):
+                node = node.orelse[0]
+            elif not node.orelse:
+                break
+            else:
+                fail(em2.rel, node, 'ExprDomain.as_quantity: unexpected else branch')
+        # (f) as_expr() of every class: `return self` or `return <Class>(self)`
+        self.as_expr_cls = {}
+        name2key = {cn: k for k, cn in self.classmap.items()}
+        for (d, q), cn in self.classmap.items():
+            r = self.class_attr('exprclasses', cn, 'as_expr')
+            if r is None or not isinstance(r[1], ast.FunctionDef):
+                raise Untranslatable('lcapy: class %s has no as_expr method' % cn)
+            b = [ast.unparse(x) for x in nodoc(r[1].body)]
+            if b == ['return self']:
+                self.as_expr_cls[(d, q)] = None
+            elif len(b) == 1 and b[0].startswith('return ') and b[0].endswith('(self)') and b[0][7:-6] in name2key:
+                self.as_expr_cls[(d, q)] = name2key[b[0][7:-6]]
+            else:
+                fail(self.mod(r[0][0]).rel, r[1], '%s.as_expr: unrecognised body' % r[0][1])
         # --- flag reads
         self.flag_reads = []     # (file, function, flag, line)
         for fn in sorted(os.listdir(os.path.join(self.repo, 'lcapy'))):
@@ -762,6 +834,18 @@ class Translator:
         out.append('Definition gen_flag_reads : list (uflag * readsite) := [')
         out.append(';\n'.join('  (U_%s, %s) (* %s:%s *)' % (fl, frk(fn, func), fn, func) for fn, func, fl in fr))
         out.append('].\n')
+        out.append('(* ExprDomain.as_quantity(name): the quantity of the class that the dispatched as_<x>() builds *)')
+        out.append('Definition gen_asq (q : quantity) : asres :=\n  match q with')
+        for q in QUANTITIES:
+            if q in self.asq:
+                out.append('  | %s => %s' % (QCOQ[q], 'AsSelf' if self.asq[q] == 'self' else 'AsQ %s' % QCOQ[self.asq[q]]))
+        out.append('  | _ => AsError\n  end.\n')
+        out.append('(* as_expr() of exprclasses[d][q]: None = returns self *)')
+        out.append('Definition gen_as_expr_cls (d : domain) (q : quantity) : option cls :=\n  match d, q with')
+        for (d, q), v in self.as_expr_cls.items():
+            if v is not None:
+                out.append('  | %s, %s => Some (%s, %s)' % (DCOQ[d], QCOQ[q], DCOQ[v[0]], QCOQ[v[1]]))
+        out.append('  | _, _ => None\n  end.\n')
         out.append('Definition T : tables := {|')
         out.append('  mul_tab := gen_mul_tab; div_tab := gen_div_tab; def_units := gen_def_units; has_class := gen_has_class;')
         out.append('  class_quantity := gen_class_quantity; class_domain := gen_class_domain; dom_units := gen_dom_units;')
@@ -769,7 +853,7 @@ class Translator:
         out.append('  mul_keeps_units := %s; div_keeps_units := %s;' % tuple('true' if self.keeps_units[m] else 'false' for m in ('__mul__', '__truediv__')))
         out.append('  rdiv_keeps_units := %s; compat_guard := %s; add_keeps_units := %s; ft_keeps_units := %s;' % tuple(
             'true' if b else 'false' for b in (self.rdiv_keeps_units, self.compat_guard, self.add_keeps_units, self.ft_keeps_units)))
-        out.append('  sites := gen_sites; flag_reads := gen_flag_reads |}.')
+        out.append('  asq := gen_asq; as_expr_cls := gen_as_expr_cls; sites := gen_sites; flag_reads := gen_flag_reads |}.')
         return '\n'.join(out) + '\n'
 
 
